@@ -23,7 +23,7 @@ TIERS = {
     "quick": {"runs": 1200, "max_wall": 240, "minimise_s": 25, "chunk": 25},
     "thorough": {"runs": 40000, "max_wall": 3000, "minimise_s": 60, "chunk": 100},
 }
-FAULT_KINDS = ["EIO", "ENOSPC (short write)", "EACCES", "mutation during serialisation (schedule)", "mutation between write and flag clear"]
+FAULT_KINDS = ["EIO", "ENOSPC (short write)", "EACCES", "directory not writable during one attempt (save refused without raising)", "mutation during serialisation (schedule)", "mutation between write and flag clear"]
 REAL = ["mysensors.task (_schedule_factory of SyncTasks and AsyncTasks, stop)", "mysensors.persistence", "pickle / json serialisers", "pump, reader, handlers"]
 STUBS = ["threading.Timer -> SimTimer", "asyncio loop clock and executor (kernel controlled threads)", "file system (SimFS)", "serial port / socket"]
 ASSUMPTIONS = ["pre-emption at Python source lines (mysensors/*, json/encoder.py) and at blocking shims; the C pickler is atomic between __getstate__ calls"]
@@ -32,7 +32,7 @@ REQUIRED_PROBES = ["attempts_failed", "save_overlapped_mutation", "attempts_afte
 WINDOW_NAMES = {"save_sensors", "_save_json", "_save_pickle", "_perform_file_action", "__getstate__", "default", "_iterencode",
                 "_iterencode_dict", "_iterencode_list", "schedule_save", "save_on_schedule", "logic", "alert", "handle_set",
                 "handle_presentation", "add_sensor", "add_child_sensor", "update_child_value", "handle_sketch_name", "handle_battery_level"}
-KINDS = ["EIO", "ENOSPC", "EACCES"]
+KINDS = ["EIO", "ENOSPC", "EACCES", "RODIR"]
 
 
 def window(code):
@@ -117,7 +117,13 @@ class Watch:
                 self.current = rec
                 spec = self.faults.get(str(rec["n"]))
                 self.fs.disarm()
-                if spec is not None:
+                if spec is not None and spec[2] == "RODIR":
+                    # the directory is not writable for the duration of this attempt: the library
+                    # refuses the save without raising
+                    self.fs.readonly.add("/work")
+                    rec["fired"] = ("access", "RODIR")
+                    rec["refused"] = True
+                elif spec is not None:
                     rec["pending"] = spec
                     self.fs.arm({})
                 if self.inject:
@@ -126,8 +132,9 @@ class Watch:
         else:
             rec = self.current
             self.fs.disarm()
+            self.fs.readonly.discard("/work")
             if rec is not None:
-                rec["completed"] = exc is None
+                rec["completed"] = exc is None and not rec.get("refused")
                 rec["exc"] = None if exc is None else repr(exc)
                 rec["need_save_after"] = bool(persistence.need_save)
                 if sim.stats.get("logic_calls", 0) != rec["logic_at_start"]:
